@@ -11,6 +11,7 @@ import Driver.Conc
 import Driver.Config
 import Driver.Value
 import Driver.Graph
+import Driver.Naming
 
 partial def loopIO (h : IO.FS.Stream) (out : IO.FS.Stream) (f : String → String) : IO Unit := do
   let line ← h.getLine
@@ -22,7 +23,7 @@ partial def loopIO (h : IO.FS.Stream) (out : IO.FS.Stream) (f : String → Strin
 def subs : List (String × (String → String)) :=
   [ ("tag", Driver.Tag.handle), ("order", Driver.Order.handle), ("placeholder", Driver.Placeholder.handle),
     ("registry", Driver.Registry.handle), ("scan", Driver.Scan.handle), ("conc", Driver.Conc.handle),
-    ("config", Driver.Config.handle), ("value", Driver.Value.handle), ("graph", Driver.Graph.handle) ]
+    ("config", Driver.Config.handle), ("value", Driver.Value.handle), ("graph", Driver.Graph.handle), ("naming", Driver.Naming.handle) ]
 
 def main (args : List String) : IO UInt32 := do
   match args with
